@@ -289,6 +289,8 @@ def gen_case(rng, tier):
            "eps": rng.choice(EPSS + ["1/100", "1", "0"]), "horizon": rng.choice([None, None, 1, 3, 10])}
     if fullobs:
         cfg["min_exp"], cfg["max_exp"] = 3, rng.choice([2, 4])
+    if "probability-2^-30" in variants:
+        cfg["horizon"] = rng.choice([1, 3])       # exact arithmetic gains 30 bits per sweep on these
     if gamma in ("0", NEAR1) or cfg["eps"] == "0":
         # horizon=None would need 0 sweeps (gamma=0: raises, reported separately) / ~1e7 sweeps / log(0)
         cfg["horizon"] = cfg["horizon"] or rng.choice([1, 3, 10])
@@ -321,12 +323,17 @@ def gen_case(rng, tier):
             "initial_index": 0 if kinds and kinds[0] == "initial" else None, "variants": variants}
 
 
-def depth_for(pc):
+def heavy(case):
+    """cases whose exact arithmetic grows fast (2^-30 probabilities, gamma = 1 - 2^-20)"""
+    return "probability-2^-30" in case.get("variants", []) or case["pomdp"]["gamma"] == NEAR1
+
+
+def depth_for(pc, case=None):
     br = pc["nA"] * pc["nO"]
     k = 1
     while k < 4 and br ** (k + 1) <= 300:
         k += 1
-    return k
+    return min(k, 2) if case is not None and heavy(case) else k
 
 
 # ----------------------------------------------------------------------------
@@ -439,7 +446,7 @@ def run(ctx):
         scale = max([F(1)] + sar) / (1 - g)
         tol = F(1, 10**9) * scale
         ptol = F(1, 10**12)
-        k = depth_for(pc)
+        k = depth_for(pc, case)
         pt = pomdp_term(pc, order)
         info[i] = {"tol": tol, "k": k, "Qs": Qs, "Vs": Vs, "order": order, "beliefs": beliefs}
         counters["absorbing_cases"] += int(any(masked))
@@ -473,7 +480,7 @@ def run(ctx):
                 B = lc["belief_set"]
                 pts = B[:6]
                 terms.append("pb_rep %s %s %s %s %s %s %s %s %s %s" % (
-                    pt, q(tolp), q(ptol), nat(k), nat(j), vlib.b(j <= 25), qmat(G), qmat(Qs),
+                    pt, q(tolp), q(ptol), nat(k), nat(j), vlib.b(j <= (5 if heavy(case) else 25)), qmat(G), qmat(Qs),
                     entries(beliefs, pb["queries"]), qmat(pts)))
                 meta.append(("pb", i))
                 ents = rep_entries(pb["queries"])
@@ -486,7 +493,7 @@ def run(ctx):
                     pt, q(tolp), qmat(lc["prev_alpha_vectors"]), qmat(B[:nb]), qten(lc["candidates"][:nb]),
                     vlib.natlist(lc["selected"][:nb])))
                 meta.append(("sw", i))
-                work = (min(j + 1, H)) * len(B) * nA * nO * (len(B) + n)
+                work = (min(j + 1, H)) * len(B) * nA * nO * (len(B) + n) * (8 if heavy(case) else 1)
                 if work <= mirror_budget:
                     terms.append("mir %s %s %s %s %s %s %s" % (
                         pomdp_term(pc, order, "mkpB"), nat(H), q(tolp), q(lc["eps"]), qmat(B), qmat(G), q(tolp)))
